@@ -18,7 +18,7 @@ import (
 )
 
 const rule = "cases = (list of global middleware with scope masks, per-route middleware lists, handler kind); all 31^k scope-mask assignments for k<=3 global entries are enumerated, random beyond " +
-	"(0-6 global entries incl. plain WithMiddleware and DefaultOptions, 0-3 per route, Update replacing the list); distinct by (configuration, kind); non-trivial when at least one middleware is configured; " +
+	"(0-6 global entries incl. plain WithMiddleware and DefaultOptions, 0-3 per route, Update replacing the list; shared-option-value configurations: one Option value per middleware id used globally and on routes and again for a second router); distinct by (configuration, kind); non-trivial when at least one middleware is configured; " +
 	"concurrent phase: 16 goroutines creating routes with own middleware on routers with 0-6 global entries"
 
 type traceKey struct{}
@@ -324,7 +324,7 @@ func main() {
 	run.Parallel(len(cfgs), func(i int) { check(run, cfgs[i]) })
 	run.SetExtra("exhaustive_subspace", fmt.Sprintf("all assignments of the 31 non-empty scope masks to 0..%d global middleware entries (%d configurations) x 5 handler kinds + Route.Handle + Route.HandleMiddleware: enumerated completely", maxK, len(cfgs)))
 	// random beyond
-	n := run.Pick(400, 5000)
+	n := run.Pick(400, 100000)
 	if run.Mode() == "race" {
 		n = 100
 	}
@@ -382,7 +382,7 @@ func defaults(run *kit.Run) {
 }
 
 func concurrent(run *kit.Run) {
-	rounds := run.Pick(200, 5000)
+	rounds := run.Pick(200, 20000)
 	if run.Mode() != "race" {
 		rounds = run.Pick(50, 500)
 	}
